@@ -49,11 +49,23 @@
             STMT; \
         } while (0)
 #else
-    #define PSY_ASSERT_3(COND_EXPR, STMT, MSG)
-    #define PSY_ASSERT_2(COND_EXPR, STMT)
+    // Without the message, but with the recovery: the statement given to an
+    // assertion is what keeps the code that follows from using a null or
+    // otherwise invalid value.
+    #define PSY_ASSERT_3(COND_EXPR, STMT, MSG) \
+        do { \
+            if (COND_EXPR) {} \
+            else { \
+                STMT; \
+            } \
+        } while (0)
+    #define PSY_ASSERT_2(COND_EXPR, STMT) PSY_ASSERT_3(COND_EXPR, STMT, "")
     #define PSY_ASSERT_1(COND_EXPR)
     #define PSY_ASSERT_FAIL
-    #define PSY_ASSERT_FAIL_1(STMT)
+    #define PSY_ASSERT_FAIL_1(STMT) \
+        do { \
+            STMT; \
+        } while (0)
 #endif
 
 #endif
